@@ -40,6 +40,8 @@ func handleMore(toks []string) (string, bool) {
 		return r, true
 	}
 	switch toks[0] {
+	case "mscn":
+		return runMscn(toks[1:]), true
 	case "hist":
 		return runHist(toks[1], false), true
 	case "mhist":
